@@ -256,16 +256,25 @@ Proof.
   - left. split; auto.
 Qed.
 
-Lemma lk_inv_step : forall s i s', lk_inv s -> lk_step i s = Some s' -> lk_inv s'.
+(* one step, with the frame stacks made explicit: only the moving thread's stack changes, by the
+   bracket-checker step of the executed instruction *)
+Lemma lk_inv_step_stk : forall s i s' stk,
+  lk_thr_ok stk (lk_thr s) -> lk_lock_ok stk (length (lk_thr s)) (lk_l s) ->
+  lk_step i s = Some s' ->
+  exists o rest k',
+    nth_error (lk_thr s) i = Some (o :: rest) /\ lk_sstep (stk i) o = Some k' /\
+    lk_thr s' = lk_upd (lk_thr s) i rest /\
+    lk_thr_ok (fun j => if Nat.eqb j i then k' else stk j) (lk_thr s') /\
+    lk_lock_ok (fun j => if Nat.eqb j i then k' else stk j) (length (lk_thr s')) (lk_l s').
 Proof.
-  intros s i s' (stk & TO & LO) ST. unfold lk_step in ST.
+  intros s i s' stk TO LO ST. unfold lk_step in ST.
   destruct (nth_error (lk_thr s) i) as [[|o rest]|] eqn:N; try discriminate.
   destruct (lk_exec (lk_tid i) o (lk_l s)) as [l'|] eqn:EX; try discriminate.
-  injection ST as <-. unfold lk_inv. cbn [lk_l lk_thr].
+  injection ST as <-. cbn [lk_l lk_thr].
   destruct (TO i _ N) as (OKi & RUN).
   destruct (lk_srun_cons _ _ _ _ RUN) as (k' & SS & RUN').
   assert (ILT : (i < length (lk_thr s))%nat) by (apply nth_error_Some; congruence).
-  exists (fun j => if Nat.eqb j i then k' else stk j). split.
+  exists o, rest, k'. split; [reflexivity|]. split; [exact SS|]. split; [reflexivity|]. split.
   - intros j p Nj. destruct (Nat.eqb_spec j i) as [->|NE].
     + rewrite (lk_upd_same _ _ _ _ _ N) in Nj. injection Nj as <-.
       split; auto. eapply lk_sstep_ok; eauto.
@@ -289,6 +298,13 @@ Proof.
         destruct (lk_waiter_step _ _ _ OKi SS (NH i ILT NE)) as ((g & ->) & _).
         rewrite L0, lk_lock_blocked in EX; [discriminate|].
         intro E. apply lk_tid_inj in E. contradiction.
+Qed.
+
+Lemma lk_inv_step : forall s i s', lk_inv s -> lk_step i s = Some s' -> lk_inv s'.
+Proof.
+  intros s i s' (stk & TO & LO) ST.
+  destruct (lk_inv_step_stk _ _ _ _ TO LO ST) as (o & rest & k' & _ & _ & _ & TO' & LO').
+  eexists; split; eauto.
 Qed.
 
 Lemma lk_inv_reach : forall progs s,
